@@ -41,10 +41,10 @@ def rule₀ : RuleDef := { execute := [{ contextualizer := some "c1", cond := .e
 rule (if any) and the rule are well-formed, and then the factory state and the effective rule are the ones the
 property prescribes: per stage the own mechanisms if there is at least one, otherwise the default rule's; the own
 backtracking setting, otherwise the default rule's, otherwise off. -/
-theorem c14_accepted_iff (cat : Catalogue) (proxy : Bool) (d : Option DefaultRule) (r : RuleDef)
+theorem c14_accepted_iff (cat : Catalogue) (proxy validated : Bool) (d : Option DefaultRule) (r : RuleDef)
     (f : Factory) (e : Effective) :
-    load cat proxy d r = .accepted f e ↔
-      ConfigWellFormed cat d ∧ WellFormed cat proxy d r ∧ f = Spec.factory proxy d ∧ e = Spec.effective d r := by
+    load cat proxy validated d r = .accepted f e ↔
+      ConfigWellFormed cat d ∧ WellFormed cat proxy validated d r ∧ f = Spec.factory proxy d ∧ e = Spec.effective d r := by
   unfold load
   cases hf : newFactory cat proxy d with
   | error why =>
@@ -54,28 +54,28 @@ theorem c14_accepted_iff (cat : Catalogue) (proxy : Bool) (d : Option DefaultRul
     rw [hf] at this; cases this
   | ok f' =>
     obtain ⟨hc, rfl⟩ := (newFactory_ok_iff cat proxy d f').mp hf
-    cases hl : loadRule cat (Spec.factory proxy d) r with
+    cases hl : loadRule cat validated (Spec.factory proxy d) r with
     | error why =>
       simp only [hl, reduceCtorEq, false_iff, not_and]
       intro _ hw _ he
-      have := (loadRule_ok_iff cat proxy d r e).mpr ⟨hw, he⟩
+      have := (loadRule_ok_iff cat proxy validated d r e).mpr ⟨hw, he⟩
       rw [hl] at this; cases this
     | ok e' =>
-      obtain ⟨hw, rfl⟩ := (loadRule_ok_iff cat proxy d r e').mp hl
+      obtain ⟨hw, rfl⟩ := (loadRule_ok_iff cat proxy validated d r e').mp hl
       simp only [hl, Outcome.accepted.injEq]
       constructor
       · rintro ⟨rfl, rfl⟩; exact ⟨hc, hw, rfl, rfl⟩
       · rintro ⟨_, _, rfl, rfl⟩; exact ⟨rfl, rfl⟩
 
-example : load cat₀ false (some dflt₀) rule₀ =
+example : load cat₀ false true (some dflt₀) rule₀ =
     .accepted (Spec.factory false (some dflt₀)) (Spec.effective (some dflt₀) rule₀) := by decide
 
 /-- **Stage-wise inheritance.**  Every stage of an accepted rule consists of the rule's own mechanisms of that
 stage if it names at least one, otherwise of the default rule's (nothing, when there is no default rule). -/
-theorem c14_effective_stages {cat : Catalogue} {proxy : Bool} {d : Option DefaultRule} {r : RuleDef}
-    {f : Factory} {e : Effective} (h : load cat proxy d r = .accepted f e) (st : Stage) :
+theorem c14_effective_stages {cat : Catalogue} {proxy validated : Bool} {d : Option DefaultRule} {r : RuleDef}
+    {f : Factory} {e : Effective} (h : load cat proxy validated d r = .accepted f e) (st : Stage) :
     e.stage st = inherit (own st r.execute r.onError) (ownDefault st d) := by
-  obtain ⟨_, _, _, rfl⟩ := (c14_accepted_iff cat proxy d r f e).mp h
+  obtain ⟨_, _, _, rfl⟩ := (c14_accepted_iff cat proxy validated d r f e).mp h
   cases st <;> rfl
 
 /-- the four stages of the example: authentication, finalization and error handling come from the default rule,
@@ -87,8 +87,8 @@ example : (Spec.effective (some dflt₀) rule₀).authn = [⟨.authn, "anon", fa
 
 /-- **A conditional step defines its stage.**  As soon as `execute` contains a step of a stage — even one guarded
 by an `if` that may never hold — the default rule contributes nothing to that stage. -/
-theorem c14_conditional_step_defines_stage {cat : Catalogue} {proxy : Bool} {d : Option DefaultRule}
-    {r : RuleDef} {f : Factory} {e : Effective} (h : load cat proxy d r = .accepted f e)
+theorem c14_conditional_step_defines_stage {cat : Catalogue} {proxy validated : Bool} {d : Option DefaultRule}
+    {r : RuleDef} {f : Factory} {e : Effective} (h : load cat proxy validated d r = .accepted f e)
     (s : Step) (hs : s ∈ r.execute) (st : Stage) (hst : s.stage = some st) :
     e.stage st = own st r.execute r.onError := by
   rw [c14_effective_stages h st]
@@ -117,10 +117,10 @@ example : rule₀.execute.head?.bind Step.stage = some .handling ∧
 
 /-- **Backtracking inheritance.**  The effective setting is the rule's own if given, otherwise the default
 rule's, otherwise off — whether or not a default rule is configured. -/
-theorem c14_backtracking {cat : Catalogue} {proxy : Bool} {d : Option DefaultRule} {r : RuleDef}
-    {f : Factory} {e : Effective} (h : load cat proxy d r = .accepted f e) :
+theorem c14_backtracking {cat : Catalogue} {proxy validated : Bool} {d : Option DefaultRule} {r : RuleDef}
+    {f : Factory} {e : Effective} (h : load cat proxy validated d r = .accepted f e) :
     e.backtracking = r.backtracking.getD ((d.map (·.backtracking)).getD false) := by
-  obtain ⟨_, _, _, rfl⟩ := (c14_accepted_iff cat proxy d r f e).mp h
+  obtain ⟨_, _, _, rfl⟩ := (c14_accepted_iff cat proxy validated d r f e).mp h
   rfl
 
 /-- a rule that switches backtracking on where no default rule is configured (the combination the code used to
@@ -128,7 +128,7 @@ get wrong) -/
 def rule₁ : RuleDef := { backtracking := some true, execute := [{ authenticator := some "g1" }] }
 
 /-- "no default rule, own setting on"; "inherited from the default rule"; "nothing given anywhere" -/
-example : load cat₀ false none rule₁ = .accepted (Spec.factory false none) (Spec.effective none rule₁) ∧
+example : load cat₀ false true none rule₁ = .accepted (Spec.factory false none) (Spec.effective none rule₁) ∧
     (Spec.effective none rule₁).backtracking = true ∧
     (Spec.effective (some dflt₀) rule₀).backtracking = true ∧
     (Spec.effective none { rule₁ with backtracking := none }).backtracking = false := by decide
@@ -138,30 +138,30 @@ is not well-formed, i.e. iff `execute` is missing, or is not ordered authenticat
 – finalizers (or contains a step that is none of these), or a step references a mechanism the catalogue does not
 know, carries an override its mechanism refuses or an unusable condition, or `on_error` has such a step, or proxy
 mode lacks `forward_to`, or neither the rule nor the default rule provides an authenticator. -/
-theorem c14_rejected_iff (cat : Catalogue) (proxy : Bool) (d : Option DefaultRule) (r : RuleDef)
+theorem c14_rejected_iff (cat : Catalogue) (proxy validated : Bool) (d : Option DefaultRule) (r : RuleDef)
     (hc : ConfigWellFormed cat d) :
-    (∃ why, load cat proxy d r = .ruleRejected why) ↔ ¬ WellFormed cat proxy d r := by
+    (∃ why, load cat proxy validated d r = .ruleRejected why) ↔ ¬ WellFormed cat proxy validated d r := by
   constructor
   · rintro ⟨why, h⟩ hw
-    have := (c14_accepted_iff cat proxy d r _ _).mpr ⟨hc, hw, rfl, rfl⟩
+    have := (c14_accepted_iff cat proxy validated d r _ _).mpr ⟨hc, hw, rfl, rfl⟩
     rw [h] at this; cases this
   · intro hnw
-    cases h : load cat proxy d r with
+    cases h : load cat proxy validated d r with
     | ruleRejected why => exact ⟨why, rfl⟩
-    | accepted f e => exact absurd ((c14_accepted_iff cat proxy d r f e).mp h).2.1 hnw
+    | accepted f e => exact absurd ((c14_accepted_iff cat proxy validated d r f e).mp h).2.1 hnw
     | configRejected why =>
       exfalso
       unfold load at h
       have := (newFactory_ok_iff cat proxy d _).mpr ⟨hc, rfl⟩
       rw [this] at h
-      cases hl : loadRule cat (Spec.factory proxy d) r <;> simp [hl] at h
+      cases hl : loadRule cat validated (Spec.factory proxy d) r <;> simp [hl] at h
 
 example : ConfigWellFormed cat₀ (some dflt₀) := (configOk_iff cat₀ (some dflt₀)).mp (by decide)
 
 /-- **The malformed rules of the property are rejected.**  Each of the five defects the property lists makes the
 loader refuse the rule (the configuration being loadable): wrong order, no authenticator in the end, unknown
 mechanism, bad override, proxy mode without `forward_to`. -/
-theorem c14_malformed_rejected (cat : Catalogue) (proxy : Bool) (d : Option DefaultRule) (r : RuleDef)
+theorem c14_malformed_rejected (cat : Catalogue) (proxy validated : Bool) (d : Option DefaultRule) (r : RuleDef)
     (hc : ConfigWellFormed cat d)
     (h : ¬ Ordered r.execute ∨
       inherit (own .authentication r.execute r.onError) (ownDefault .authentication d) = [] ∨
@@ -169,8 +169,8 @@ theorem c14_malformed_rejected (cat : Catalogue) (proxy : Bool) (d : Option Defa
       (∃ s ∈ r.execute, s.overrideOk cat = false) ∨
       (∃ s ∈ r.onError, s.ehOk cat = false) ∨
       (proxy = true ∧ r.forwardTo = false)) :
-    ∃ why, load cat proxy d r = .ruleRejected why := by
-  rw [c14_rejected_iff cat proxy d r hc]
+    ∃ why, load cat proxy validated d r = .ruleRejected why := by
+  rw [c14_rejected_iff cat proxy validated d r hc]
   intro hw
   rcases h with h | h | ⟨s, hs, h⟩ | ⟨s, hs, h⟩ | ⟨s, hs, h⟩ | ⟨hp, h⟩
   · exact h hw.ordered
@@ -185,67 +185,182 @@ authorizer; no authenticator and no default rule; unknown mechanism; refused ove
 error handler; proxy mode without `forward_to` -/
 example :
     ¬ Ordered [({ finalizer := some "f1" } : Step), { authorizer := some "z1" }] ∧
-    load cat₀ false none
+    load cat₀ false true none
       { execute := [{ authenticator := some "g1" }, { finalizer := some "f1" }, { authorizer := some "z1" }] }
       = .ruleRejected .handlerAfterFinalizer ∧
-    load cat₀ false none { execute := [{ authorizer := some "z1" }, { authenticator := some "g1" }] }
+    load cat₀ false true none { execute := [{ authorizer := some "z1" }, { authenticator := some "g1" }] }
       = .ruleRejected .authenticatorAfterOther ∧
-    load cat₀ false none { execute := [{ authorizer := some "z1" }] } = .ruleRejected .noAuthenticator ∧
-    load cat₀ false none { execute := [{ authenticator := some "nope" }] } = .ruleRejected .unknownMechanism ∧
-    load cat₀ false none
+    load cat₀ false true none { execute := [{ authorizer := some "z1" }] } = .ruleRejected .noAuthenticator ∧
+    load cat₀ false true none { execute := [{ authenticator := some "nope" }] } = .ruleRejected .unknownMechanism ∧
+    load cat₀ false true none
       { execute := [{ authenticator := some "g1" }, { finalizer := some "f1", config := some 1 }] }
       = .ruleRejected .badOverride ∧
-    load cat₀ false none
+    load cat₀ false true none
       { execute := [{ authenticator := some "g1" }], onError := [{ errorHandler := some "e9" }] }
       = .ruleRejected .unknownMechanism ∧
-    load cat₀ true none { execute := [{ authenticator := some "g1" }] } = .ruleRejected .noForwardTo := by
+    load cat₀ true true none { execute := [{ authenticator := some "g1" }] } = .ruleRejected .noForwardTo := by
   refine ⟨?_, by decide⟩
   rw [← ordered_iff]; decide
 
 /-- **A configuration is refused exactly when its default rule is malformed**: lists that are not well-formed,
 repeated entries, or no authenticator.  Without a default rule every configuration loads. -/
-theorem c14_config_rejected_iff (cat : Catalogue) (proxy : Bool) (d : Option DefaultRule) (r : RuleDef) :
-    (∃ why, load cat proxy d r = .configRejected why) ↔ ¬ ConfigWellFormed cat d := by
+theorem c14_config_rejected_iff (cat : Catalogue) (proxy validated : Bool) (d : Option DefaultRule) (r : RuleDef) :
+    (∃ why, load cat proxy validated d r = .configRejected why) ↔ ¬ ConfigWellFormed cat d := by
   unfold load
   constructor
   · rintro ⟨why, h⟩ hc
     have := (newFactory_ok_iff cat proxy d _).mpr ⟨hc, rfl⟩
     rw [this] at h
-    cases hl : loadRule cat (Spec.factory proxy d) r <;> simp [hl] at h
+    cases hl : loadRule cat validated (Spec.factory proxy d) r <;> simp [hl] at h
   · intro hnc
     cases hf : newFactory cat proxy d with
     | error why => exact ⟨why, rfl⟩
     | ok f => exact absurd ((newFactory_ok_iff cat proxy d f).mp hf).1 hnc
 
-example : load cat₀ false (some { execute := [{ authorizer := some "z1" }] }) rule₀
+example : load cat₀ false true (some { execute := [{ authorizer := some "z1" }] }) rule₀
     = .configRejected .noAuthenticator := by decide
 
 /-- **The executable specification is the loader.**  `Spec.load` — the oracle the correspondence check runs next
 to the model — gives the same verdict and the same effective rule as `load` on every input. -/
-theorem c14_spec_oracle (cat : Catalogue) (proxy : Bool) (d : Option DefaultRule) (r : RuleDef) :
-    Spec.load cat proxy d r =
-      match load cat proxy d r with
+theorem c14_spec_oracle (cat : Catalogue) (proxy validated : Bool) (d : Option DefaultRule) (r : RuleDef) :
+    Spec.load cat proxy validated d r =
+      match load cat proxy validated d r with
       | .configRejected _ => none
       | .ruleRejected _ => some none
       | .accepted f e => some (some (f, e)) := by
   unfold Spec.load
   by_cases hc : ConfigWellFormed cat d
   · have hcb := (configOk_iff cat d).mpr hc
-    by_cases hw : WellFormed cat proxy d r
-    · have hwb := (ruleOk_iff cat proxy d r).mpr hw
-      rw [(c14_accepted_iff cat proxy d r _ _).mpr ⟨hc, hw, rfl, rfl⟩]
+    by_cases hw : WellFormed cat proxy validated d r
+    · have hwb := (ruleOk_iff cat proxy validated d r).mpr hw
+      rw [(c14_accepted_iff cat proxy validated d r _ _).mpr ⟨hc, hw, rfl, rfl⟩]
       simp [hcb, hwb]
-    · have hwb : Spec.ruleOk cat proxy d r = false := by
-        cases hb : Spec.ruleOk cat proxy d r
+    · have hwb : Spec.ruleOk cat proxy validated d r = false := by
+        cases hb : Spec.ruleOk cat proxy validated d r
         · rfl
-        · exact absurd ((ruleOk_iff cat proxy d r).mp hb) hw
-      obtain ⟨why, h⟩ := (c14_rejected_iff cat proxy d r hc).mpr hw
+        · exact absurd ((ruleOk_iff cat proxy validated d r).mp hb) hw
+      obtain ⟨why, h⟩ := (c14_rejected_iff cat proxy validated d r hc).mpr hw
       rw [h]; simp [hcb, hwb]
   · have hcb : Spec.configOk cat d = false := by
       cases hb : Spec.configOk cat d
       · rfl
       · exact absurd ((configOk_iff cat d).mp hb) hc
-    obtain ⟨why, h⟩ := (c14_config_rejected_iff cat proxy d r).mpr hc
+    obtain ⟨why, h⟩ := (c14_config_rejected_iff cat proxy validated d r).mpr hc
     rw [h]; simp [hcb]
+
+/-- **A stage without own mechanisms is inherited**, however the rule spells that: if the rule names no mechanism
+of stage `st` (key absent, `null`, empty list, or only steps of other stages), the stage is the default rule's. -/
+theorem c14_empty_stage_inherits {cat : Catalogue} {proxy validated : Bool} {d : Option DefaultRule} {r : RuleDef}
+    {f : Factory} {e : Effective} (h : load cat proxy validated d r = .accepted f e) (st : Stage)
+    (hown : own st r.execute r.onError = []) :
+    e.stage st = ownDefault st d := by
+  rw [c14_effective_stages h st, hown]; rfl
+
+/-- a rule with an explicitly empty `on_error` list under the complete default rule: the error handling stage is
+the default rule's; a rule without `execute` coming from a kubernetes resource (no rule set validation) inherits
+all four stages -/
+example : own .errorHandling rule₀.execute (Listed.items []).steps = [] ∧
+    (Spec.effective (some dflt₀) { rule₀ with onError := (Listed.items []).steps }).eh = [⟨.eh, "e1", false, none⟩] ∧
+    load cat₀ false false (some dflt₀) {} = .accepted (Spec.factory false (some dflt₀)) (Spec.effective (some dflt₀) {}) ∧
+    (Spec.effective (some dflt₀) {}).toPipelines = (Spec.factory false (some dflt₀)).dflt.getD {} ∧
+    load cat₀ false true (some dflt₀) {} = .ruleRejected .emptyExecute := by decide
+
+/-- **The spelling of a list is irrelevant.**  An absent key, `null` and an explicitly empty list decode to the same
+rule, for `execute` and for `on_error`; and rule set documents that decode to the same rules load alike. -/
+theorem c14_spelling_irrelevant (cat : Catalogue) (proxy validated : Bool) (d : Option RawDefault)
+    (r : RawRule) (rs₁ rs₂ : List RawRule) :
+    ({ r with onError := .items [] }).decode = ({ r with onError := .absent }).decode ∧
+    ({ r with onError := .null }).decode = ({ r with onError := .absent }).decode ∧
+    ({ r with execute := .items [] }).decode = ({ r with execute := .absent }).decode ∧
+    ({ r with execute := .null }).decode = ({ r with execute := .absent }).decode ∧
+    (rs₁.map RawRule.decode = rs₂.map RawRule.decode →
+      loadDocuments cat proxy validated d rs₁ = loadDocuments cat proxy validated d rs₂) := by
+  refine ⟨rfl, rfl, rfl, rfl, ?_⟩
+  intro h
+  unfold loadDocuments
+  rw [h]
+
+/-- for the default rule the configuration schema insists on an array: `null` is refused, an empty list is the
+same as an absent key -/
+example : loadDocuments cat₀ false true (some { execute := .items dflt₀.execute, onError := .null }) [] =
+      .configRejected .notAList ∧
+    loadDocuments cat₀ false true (some { execute := .items dflt₀.execute, onError := .items [] }) [] =
+      loadDocuments cat₀ false true (some { execute := .items dflt₀.execute }) [] := by decide
+
+/-- **History independence.**  The result of creating a rule does not depend on what the factory created before
+(nor on what it creates afterwards): in any history of rules loaded by one factory, the entry of a rule is the
+result of loading that rule alone with the same configuration. -/
+theorem c14_history_independent (cat : Catalogue) (proxy validated : Bool) (d : Option DefaultRule)
+    (pre post : List RuleDef) (r : RuleDef) :
+    match loadHistory cat proxy validated d (pre ++ r :: post) with
+    | .configRejected why => load cat proxy validated d r = .configRejected why
+    | .loaded f results =>
+      ∃ res, results[pre.length]? = some res ∧
+        load cat proxy validated d r =
+          match res with
+          | .ok e => .accepted f e
+          | .error why => .ruleRejected why := by
+  unfold loadHistory load
+  cases hf : newFactory cat proxy d with
+  | error why => rfl
+  | ok f =>
+    refine ⟨loadRule cat validated f r, ?_, ?_⟩
+    · simp [loadAll_eq_map]
+    · cases hl : loadRule cat validated f r <;> simp [hl]
+
+/-- a shared id: `keto` is an authorizer, a contextualizer and a finalizer; `z1` is an authorizer only -/
+def cat₁ : Catalogue := fun k id =>
+  match k, id with
+  | .authn, "anon" => some [0]
+  | .authz, "keto" => some [0]
+  | .ctx, "keto" => some [0]
+  | .fin, "keto" => some [0]
+  | .authz, "z1" => some [0]
+  | _, _ => none
+
+/-- after a rule that used the authorizer `keto` and the authorizer `z1`, a rule referencing the finalizer `keto`
+gets the finalizer, and a rule referencing a finalizer `z1` is refused as before -/
+example : loadHistory cat₁ false true none
+      [{ execute := [{ authenticator := some "anon" }, { authorizer := some "keto" }, { authorizer := some "z1" }] },
+       { execute := [{ authenticator := some "anon" }, { finalizer := some "keto" }] },
+       { execute := [{ authenticator := some "anon" }, { finalizer := some "z1" }] }] =
+    .loaded (Spec.factory false none)
+      [.ok { authn := [⟨.authn, "anon", false, none⟩], sh := [⟨.authz, "keto", false, none⟩, ⟨.authz, "z1", false, none⟩] },
+       .ok { authn := [⟨.authn, "anon", false, none⟩], fin := [⟨.fin, "keto", false, none⟩] },
+       .error .unknownMechanism] := by decide
+
+/-- **The specification of a history is the loader**: `Spec.loadHistory`, the oracle of the correspondence check
+for histories, judges every rule by itself and agrees with `loadHistory` on every input. -/
+theorem c14_spec_oracle_history (cat : Catalogue) (proxy validated : Bool) (d : Option DefaultRule)
+    (rs : List RuleDef) :
+    Spec.loadHistory cat proxy validated d rs =
+      match loadHistory cat proxy validated d rs with
+      | .configRejected _ => none
+      | .loaded _ results => some (results.map fun res =>
+          match res with
+          | .ok e => some e
+          | .error _ => none) := by
+  unfold Spec.loadHistory loadHistory
+  by_cases hc : ConfigWellFormed cat d
+  · have hcb := (configOk_iff cat d).mpr hc
+    rw [(newFactory_ok_iff cat proxy d _).mpr ⟨hc, rfl⟩]
+    simp only [hcb, Bool.not_true, Bool.false_eq_true, if_false, loadAll_eq_map, List.map_map, Option.some.injEq]
+    apply List.map_congr_left
+    intro r _
+    simp only [Function.comp]
+    by_cases hw : WellFormed cat proxy validated d r
+    · rw [(loadRule_ok_iff cat proxy validated d r _).mpr ⟨hw, rfl⟩, if_pos ((ruleOk_iff cat proxy validated d r).mpr hw)]
+    · have hwb : ¬ Spec.ruleOk cat proxy validated d r = true := fun hb => hw ((ruleOk_iff cat proxy validated d r).mp hb)
+      rw [if_neg hwb]
+      cases hl : loadRule cat validated (Spec.factory proxy d) r with
+      | error why => rfl
+      | ok e => exact absurd ((loadRule_ok_iff cat proxy validated d r e).mp hl).1 hw
+  · have hcb : Spec.configOk cat d = false := by
+      cases hb : Spec.configOk cat d
+      · rfl
+      · exact absurd ((configOk_iff cat d).mp hb) hc
+    cases hf : newFactory cat proxy d with
+    | error why => simp [hcb]
+    | ok f => exact absurd ((newFactory_ok_iff cat proxy d f).mp hf).1 hc
 
 end Heimdall.Props.C14
